@@ -111,6 +111,11 @@ SignConflict(r) == LET ds == IF r.y # 0 THEN SgnI(r.y) ELSE IF r.mo # 0 THEN Sgn
 ZRoundRel(z, t, D, largest, smallest, inc, mode) ==
   LET tg == ZAdd(z, t, D, "constrain")
   IN IF tg.kind # "ok" THEN tg
+     \* smallest unit nanosecond with increment 1: nothing is rounded, the duration is only re-measured and re-balanced
+     ELSE IF smallest = "nanosecond"
+          THEN (IF largest \in TimeUnits THEN Ok(BalanceDur(K9(FromInt(tg.val - t)), largest))
+                ELSE LET rec == ZDiffRec(z, t, tg.val, largest)
+                     IN IF ~rec.defined \/ SignConflict(rec) THEN [kind |-> "any"] ELSE Ok(ToDurZ(IDZ(rec.y, rec.mo, rec.w, rec.d, rec.t), largest)))
      ELSE IF largest \in TimeUnits
           THEN Ok(BalanceDur(K9(FromInt(RoundI(tg.val - t, inc * UnitSec(smallest), mode))), largest))   \* DifferenceInstant
           ELSE LET rec == ZDiffRec(z, t, tg.val, largest)
